@@ -430,7 +430,7 @@ def batt_cases(ctx, n_sys, faults):
         if phases:
             cap0 = ib * (sum(phases) / len(phases)) * steps / 3600.0
         else:
-            cap0 = rng.uniform(0.01, 5.0)
+            cap0 = rng.uniform(0.01, 5.0) if rng.random() > 0.15 else rng.uniform(100.0, 3000.0)     # (also >= 100 Ah)
         kind = rng.choice(["const", "sag", "ir"])
         cutoff = v0 * rng.choice([0.0, 0.5, 0.85, 0.95])
         if rng.random() < 0.25:
@@ -459,6 +459,8 @@ def batt_cases(ctx, n_sys, faults):
                 for c in st3["comps"]:
                     if c["name"] == bat:
                         c["rail"] = "RBAT"
+                    elif c["cls"] == "Source" and not c["rail"]:
+                        c["rail"] = "RBAT_" + c["name"]       # (the battery's rail name is part of another source's)
                 s = rebuild(st3)
             except Exception:
                 pass
@@ -476,7 +478,8 @@ def batt_cases(ctx, n_sys, faults):
             return drv_batt.numeric_model(kind, cap0 if cap0 > 0 else 1e-300, v0, r0, rng) if cap0 > 0 else _dead_model(v0, r0)
         variants = [None]
         if faults:
-            variants += [("probe", 1), ("deplete", 1), ("deplete", rng.randint(2, 4)), ("solve", rng.randint(1, 3))]
+            variants += [("probe", 1), ("deplete", 1), ("deplete", rng.randint(2, 4)), ("solve", rng.randint(1, 3)),
+                         ("deplete", rng.randint(1, 3), "abort")]
         for f in variants:
             p, d = fresh()
             sc = copy_system(s)
